@@ -17,8 +17,8 @@ import (
 	"sort"
 	"strconv"
 	"strings"
-	"syscall"
 	"sync"
+	"syscall"
 	"time"
 )
 
